@@ -15,4 +15,4 @@ def _extra(ctx, info, rng, fam, hs):
 
 
 def main(ctx, replay):
-    return queuefam.run_property(ctx, "C14", 150, 3000, extra=_extra, extra_prop_files=("C14admin", "C14proxy", "C02trans"))
+    return queuefam.run_property(ctx, "C14", 150, 3000, extra=_extra, extra_prop_files=("C14admin", "C14proxy", "C02trans", "C04two"))
